@@ -71,6 +71,15 @@ func VerifC16(signer, keyring int, ask string, tamper, decoy int, maint string, 
 			md = append(md, verifCompress(".gz", verifTar([]string{"./f"}, []string{payload + "x"})))
 		}
 	}
+	if decoy == 4 {
+		// an empty second control member / data member (nothing to read, still a second member)
+		mn = append(mn, "control.tar")
+		md = append(md, "")
+	}
+	if decoy == 5 {
+		mn = append(mn, "data.tar.xz")
+		md = append(md, "")
+	}
 	if decoy == 3 {
 		// the signed control tarball is kept under a name that is no tarball name while a foreign one takes its place
 		md[1] = verifCompress(".gz", verifTar([]string{"./control"}, []string{ctlText(evilMaint)}))
